@@ -118,7 +118,12 @@ def check_list(ctx, tr, rng, k, j, forced=None):
     if excl:
         if inline:
             fn.append('NEGATE')
-            api_pats += ['!' + e for e in excl]
+            if forced or rng.random() < 0.5:
+                api_pats += ['!' + e for e in excl]
+            else:
+                # an exclusion may stand anywhere in the list (also in front of repeated inclusions): it filters, it is no result
+                for e in excl:
+                    api_pats.insert(rng.randrange(len(api_pats) + 1), '!' + e)
         else:
             kw['exclude'] = list(excl)
     only_excl_case = False
